@@ -14,34 +14,29 @@ import DawgieVerif.Proofs.SchedMsgs
 namespace DawgieVerif.C11
 open DawgieVerif.Farm DawgieVerif.Sched
 
-/-- what one dispatch tick writes: a task to each of the first `min` idle workers, then a
-    "wait" to every worker still idle -/
-theorem dispatch_log (s : FSt) (new : List Msg) (h : FInv s) (ha : s.active = true) :
-    (Farm.dispatch s new).log =
-      s.log ++ (s.workers.zip (sortCluster (s.cluster ++ new))).map (fun p => (p.1, Wire.task p.2))
-        ++ (s.workers.drop (sortCluster (s.cluster ++ new)).length).map (fun w => (w, Wire.wait)) := by
-  rw [dispatch_eq s new ha]
-  generalize sortCluster (s.cluster ++ new) = c
-  have hsp := assign_spec s.workers c { s with cluster := c, enq := s.enq ++ new } h.nodup
-  have hw := assign_workers s.workers c { s with cluster := c, enq := s.enq ++ new } h.nodup rfl
-  rw [notifyAll_active _ (by rw [hsp.2.2.2.2.1]; exact ha)]
-  dsimp only
-  rw [hsp.1, hw]
-
 /-- **Only eligible workers.**  Every task message written by a dispatch tick goes to a
     connection that was in the idle list, is still connected, holds no task, and registered with
-    the pipeline's current revision — and the pipeline is active. -/
+    the pipeline's current revision — and the pipeline is active (and stays active in that tick:
+    a tick that fires the archive hands out nothing). -/
 theorem only_eligible (rev : Nat) (ops : List FOp) (hv : ValidRun (FSt.init rev) ops)
     (new : List Msg) (w : Nat) (m : Msg)
     (hw : (w, Wire.task m) ∈ (Farm.dispatch (Farm.run (FSt.init rev) ops) new).log)
     (hold : (w, Wire.task m) ∉ (Farm.run (FSt.init rev) ops).log) :
     (Farm.run (FSt.init rev) ops).active = true ∧ w ∈ (Farm.run (FSt.init rev) ops).workers ∧
     (Farm.run (FSt.init rev) ops).conn w = true ∧ (Farm.run (FSt.init rev) ops).holds w = none ∧
-    (Farm.run (FSt.init rev) ops).regRev w = some (Farm.run (FSt.init rev) ops).gitRev := by
+    (Farm.run (FSt.init rev) ops).regRev w = some (Farm.run (FSt.init rev) ops).gitRev ∧
+    (Farm.dispatch (Farm.run (FSt.init rev) ops) new).active = true := by
   have h := Farm.run_inv (FSt.init rev) ops (finv_init rev) hv
   generalize Farm.run (FSt.init rev) ops = s at h hw hold
   by_cases ha : s.active = true
-  · rw [dispatch_log s new h ha] at hw
+  · rw [dispatch_eq s new ha] at hw ⊢
+    have hpre := preArchive_inv s new h
+    rw [dispatchCore_log _ new hpre] at hw
+    -- the part of the state `preArchive` does not touch
+    have hsame : (preArchive s new).workers = s.workers ∧ (preArchive s new).log = s.log ∧
+        (preArchive s new).cluster = s.cluster := by
+      unfold preArchive; split <;> simp
+    rw [hsame.1, hsame.2.1, hsame.2.2] at hw
     simp only [List.mem_append, List.mem_map] at hw
     rcases hw with (hw | hw) | hw
     · exact absurd hw hold
@@ -50,12 +45,48 @@ theorem only_eligible (rev : Nat) (ops : List FOp) (hv : ValidRun (FSt.init rev)
       have hin : w ∈ s.workers := by
         rw [hwm]; exact List.mem_of_mem_take (mem_zip_fst hp)
       obtain ⟨r, hr, hrr⟩ := h.rev w hin
-      exact ⟨ha, hin, h.alive w hin, h.idle w hin, by rw [hr, hrr (h.act ha)]⟩
-    · obtain ⟨u, _, heq⟩ := hw; simp at heq
+      -- a pair was handed out, so the queue was not empty and the archive did not fire
+      have hnofire : preArchive s new = s := by
+        unfold preArchive
+        split
+        · rename_i hc
+          exfalso
+          rw [hc.2.1, hc.2.2.2] at hp
+          simp [sortCluster_nil] at hp
+        · rfl
+      refine ⟨ha, hin, h.alive w hin, h.idle w hin, by rw [hr, hrr (h.act ha)], ?_⟩
+      rw [hnofire]
+      unfold dispatchCore
+      generalize sortCluster (s.cluster ++ new) = c
+      have hsp := assign_spec s.workers c { s with cluster := c, enq := s.enq ++ new } h.nodup
+      rw [notifyAll_active _ (by rw [hsp.2.2.2.2.1]; exact ha)]
+      dsimp only
+      rw [hsp.2.2.2.2.1]; exact ha
+    · obtain ⟨u, _, heq⟩ := hw
+      simp at heq
+      split at heq <;> simp at heq
   · have : s.active = false := by cases hs : s.active <;> simp_all
     unfold Farm.dispatch at hw
     simp only [this, if_true] at hw
     exact absurd hw hold
+
+/-- **The tick that turns the pipeline inactive tells the waiting workers to leave.**  When a
+    dispatch tick itself fires the archive (new data arrived, nothing released, queued or busy),
+    every idle worker is sent the abort message in that same tick and the idle list is emptied. -/
+theorem archive_tick_aborts (s : FSt) (h : FInv s) (ha : s.active = true) (harch : s.archive = true)
+    (hb : s.busy = []) (hc : s.cluster = []) :
+    (Farm.dispatch s []).active = false ∧ (Farm.dispatch s []).workers = [] ∧
+    (Farm.dispatch s []).log = s.log ++ s.workers.map (fun w => (w, Wire.abort)) := by
+  rw [dispatch_eq s [] ha]
+  have hpre : preArchive s [] = { s with active := false } := by
+    unfold preArchive; rw [if_pos ⟨harch, rfl, hb, hc⟩]
+  rw [hpre]
+  unfold dispatchCore
+  dsimp only
+  rw [hc]
+  simp only [List.append_nil, sortCluster_nil, assign_nil]
+  rw [notifyAll_inactive _ rfl]
+  exact ⟨rfl, rfl, rfl⟩
 
 /-- No worker is given two tasks in one tick, and no message goes to two workers: the tick
     pairs distinct workers with distinct positions of the queue. -/
@@ -99,6 +130,7 @@ theorem inactive_only_abort (s : FSt) (hina : s.active = false) (op : FOp)
   | setRev r => exact absurd hw hold
   | clear => exact absurd hw hold
   | setActive b => exact absurd rfl (hop b)
+  | setArchive b => exact absurd hw hold
 
 /-- **Tasks that cannot be placed stay queued**: after a tick the messages handed out together
     with the queue are a permutation of the old queue plus the newly queued messages —
@@ -107,14 +139,12 @@ theorem unplaced_stay (s : FSt) (new : List Msg) (h : FInv s) (ha : s.active = t
     List.Perm
       (((s.workers.zip (sortCluster (s.cluster ++ new))).map (·.2)) ++ (Farm.dispatch s new).cluster)
       (s.cluster ++ new) := by
+  have hsame : (preArchive s new).workers = s.workers ∧ (preArchive s new).cluster = s.cluster := by
+    unfold preArchive; split <;> simp
+  have hpre := preArchive_inv s new h
   have hc : (Farm.dispatch s new).cluster =
       (sortCluster (s.cluster ++ new)).drop s.workers.length := by
-    rw [dispatch_eq s new ha]
-    generalize sortCluster (s.cluster ++ new) = c
-    have hcl := assign_cluster s.workers c { s with cluster := c, enq := s.enq ++ new } h.nodup rfl
-    have hsp := assign_spec s.workers c { s with cluster := c, enq := s.enq ++ new } h.nodup
-    rw [notifyAll_active _ (by rw [hsp.2.2.2.2.1]; exact ha)]
-    exact hcl
+    rw [dispatch_eq s new ha, dispatchCore_cluster _ new hpre, hsame.1, hsame.2]
   rw [hc]
   have : (s.workers.zip (sortCluster (s.cluster ++ new))).map (·.2) =
       (sortCluster (s.cluster ++ new)).take s.workers.length := by
